@@ -103,6 +103,7 @@ const POINTS: &[&str] = &[
 ];
 
 const TOPOLOGIES: &[&str] = &[
+    "caught-then-continue",
     "orig-only",
     "clone-dropped-first",
     "clone-outlives",
@@ -143,6 +144,8 @@ fn expected_marker(point: &str) -> &'static str {
 
 fn applicable(point: &str, topology: &str) -> bool {
     match topology {
+        // the fault is caught; afterwards the same call must work and verification must judge the counts
+        "caught-then-continue" => matches!(point, "matcher" | "answer" | "real" | "default" | "debug" | "clone"),
         // the by-value provided method only reaches its own body and `other()`
         "by-value" => matches!(point, "default" | "mock-NoMockImpl"),
         // Rc is not Send: fine on one thread. box-dyn only exposes K2
@@ -322,6 +325,52 @@ fn child(id: &str) {
     let mut outliving: Vec<Unimock> = vec![];
     let mut parked = vec![];
     match topology {
+        "caught-then-continue" => {
+            // silence the default hook for the caught panic, keep it for everything else
+            let u = build(point, false);
+            let extra_clone = if extra > 0 { Some(u.clone()) } else { None };
+            let target: &Unimock = extra_clone.as_ref().unwrap_or(&u);
+            let r = std::panic::catch_unwind(std::panic::AssertUnwindSafe(|| body(target, point)));
+            if r.is_ok() {
+                eprintln!("SCENARIO-DID-NOT-PANIC");
+            }
+            ARMED.store(false, Ordering::SeqCst);
+            // the same calls again, unarmed: they must complete normally
+            let again = std::panic::catch_unwind(std::panic::AssertUnwindSafe(|| match point {
+                "matcher" | "answer" | "real" | "clone" => {
+                    let _ = target.k(Arg(1));
+                }
+                "debug" => {
+                    // strict mock with a rejecting pattern: the call fails with a mock error (now renderable)
+                    let _ = std::panic::catch_unwind(std::panic::AssertUnwindSafe(|| target.k(Arg(1))));
+                }
+                "default" => {
+                    let _ = target.prov(1);
+                }
+                _ => {}
+            }));
+            if let Err(p) = again {
+                let msg = p
+                    .downcast_ref::<String>()
+                    .cloned()
+                    .or(p.downcast_ref::<&str>().map(|s| s.to_string()))
+                    .unwrap_or_default();
+                eprintln!("CONTINUE-FAILED after a caught {point} panic the same call panics: {msg}");
+                std::process::exit(1);
+            }
+            drop(extra_clone);
+            // `other` was called: with `unmet` false everything mentioned has been matched, except after
+            // the debug scenario which legitimately recorded a mock error
+            let v = std::panic::catch_unwind(std::panic::AssertUnwindSafe(move || drop(u)));
+            let verification_failed = v.is_err();
+            if verification_failed != (point == "debug") {
+                eprintln!("CONTINUE-FAILED verification after a caught {point} panic: failed={verification_failed}");
+                std::process::exit(1);
+            }
+            eprintln!("CONTINUE-OK");
+            // uniform protocol with the other scenarios: exit like a reported panic
+            std::process::exit(101);
+        }
         "orig-only" => {
             let u = build(point, unmet);
             for _ in 0..extra {
@@ -450,7 +499,7 @@ fn scenarios() -> Vec<String> {
             }
             for unmet in ["met", "unmet"] {
                 let extras: &[usize] = match *t {
-                    "orig-only" | "clone-outlives" | "clone-other-thread" | "by-value" => &[0, 2],
+                    "orig-only" | "clone-outlives" | "clone-other-thread" | "by-value" | "caught-then-continue" => &[0, 2],
                     _ => &[0],
                 };
                 for e in extras {
@@ -538,6 +587,8 @@ fn run(args: &[String]) {
                     .num("panics_reported", n_panics)
                     .boolean("first_panic_is_injected", first.contains(expected_marker(point)))
                     .boolean("did_not_panic", stderr.contains("SCENARIO-DID-NOT-PANIC"))
+                    .boolean("continue_ok", stderr.contains("CONTINUE-OK"))
+                    .boolean("continue_failed", stderr.contains("CONTINUE-FAILED"))
                     .boolean("abort_text", stderr.contains("panic in a destructor") || stderr.contains("aborting"))
                     .str("first_panic", &first.chars().take(300).collect::<String>())
                     .str("stderr_tail", &stderr.chars().rev().take(300).collect::<String>().chars().rev().collect::<String>())
